@@ -13,9 +13,12 @@ def h_step(P, kinds, shape, props, L=2, hibernation=False, generations=2, mech="
     w = build(P, kinds, shape, L=L, hibernation=hibernation, generations=generations, mech=mech, warm=warm, maximize=maximize,
               deme_filters=deme_filters)
     tree = w.tree
+    props = set(props)
+    if "C09" in props:
+        for _, d in tree.all_demes:
+            d.centroid  # a report / filter looked at the centroid before this metaepoch
     go_symbolic(w, monotone=monotone)
     height = len(tree.levels)
-    props = set(props)
 
     # ---- obligations evaluated at every consultation of the global stop condition
     def at_consultation(tr, k):
@@ -155,6 +158,12 @@ def h_step(P, kinds, shape, props, L=2, hibernation=False, generations=2, mech="
         awake = [did for did, pre in w.pre.items() if val(pre["active"]) and not (w.hibernation and val(pre["hib"]))]
         if awake:
             P.oblige("C18.progress.some_deme_awake", len(w.log.entries) > w.pre_log)
+
+    # =========================== C09 (centroids are current)
+    if "C09" in props:
+        for lvl, d in tree.all_demes:
+            want = np.mean([ind.genome for ind in d.current_population], axis=0)
+            P.oblige("C09.centroid_is_mean_of_current_population", bool(np.array_equal(d.centroid, want)))
 
     # =========================== C03
     if "C03" in props:
